@@ -111,7 +111,15 @@ fn specs(unit: &Value) -> Vec<(bool, RpcSpec, Option<String>)> {
     }
 }
 
-const FAIL_MODES: [&str; 8] = [
+const FAIL_MODES: [&str; 16] = [
+    "caller-abandons-p1",
+    "caller-abandons-p2",
+    "caller-abandons-p3",
+    "caller-abandons-p4",
+    "caller-abandons-100",
+    "caller-abandons-500",
+    "caller-abandons-1100",
+    "caller-abandons-2500",
     "resp-over-callee-limit",
     "resp-over-caller-limit",
     "req-over-callee-limit",
@@ -167,7 +175,52 @@ async fn scenario_fail(sim: Arc<Sim>, unit: Value) -> Obs {
         }
     };
     outcomes.push(horizon(sim.clone(), a.clone(), b.peer_id(), before).await);
-    let h = tokio::spawn(horizon(sim.clone(), a.clone(), b.peer_id(), main));
+    if let Some(us) = mode.strip_prefix("caller-abandons-") {
+        // six calls in a row are given up by the caller `us` microseconds after they were issued
+        // (0 = after the first poll): the request and the cancellation reach the callee close
+        // together, so its answer may be ready just as the cancellation is noticed. Whatever the
+        // callee did with those answers, the next call gets its own.
+        // pN: at the N-th poll, the other tasks having had one turn between polls (for the N at
+        // which the request is written, request and cancellation leave in the same datagram)
+        let polls: usize = us.strip_prefix('p').map(|n| n.parse().unwrap()).unwrap_or(0);
+        let us: u64 = if polls > 0 { 0 } else { us.parse().unwrap() };
+        for k in 0..6 {
+            let spec = RpcSpec::new(&format!("abandoned{k}")).route("/f").header("resp-len", "300").header(&format!("only-{k}"), "x").body(pattern_body(10 + k as u64, 40 + k));
+            let (sim2, a2, to) = (sim.clone(), a.clone(), b.peer_id());
+            let sp = spec.clone();
+            let fut = async move { do_rpc(&sim2, &a2, to, &sp).await };
+            let mut fut = Box::pin(fut);
+            if polls > 0 {
+                // N - 1 times (poll, let every other ready task run once), then one more poll and
+                // the call is dropped in the same scheduler turn
+                for n in 0..polls {
+                    if futures::poll!(fut.as_mut()).is_ready() {
+                        break;
+                    }
+                    if n + 1 < polls {
+                        tokio::task::yield_now().await;
+                    }
+                }
+            } else {
+                let _ = tokio::time::timeout(std::time::Duration::from_micros(us), fut.as_mut()).await;
+            }
+            drop(fut);
+            log.push(format!("[{mode}] rpc {} given up by the caller", spec.id));
+            if k % 2 == 1 {
+                tokio::time::sleep(ms(3)).await;
+            }
+        }
+        tokio::time::sleep(ms(20)).await;
+        for k in 0..6 {
+            let id = format!("abandoned{k}");
+            log.push(format!("[{mode}] rpc {id}: handler started {} time(s), completed={}", sim.svc.started(&id), sim.svc.completed(&id)));
+        }
+        outcomes.push(horizon(sim.clone(), a.clone(), b.peer_id(), after.clone()).await);
+        let after2 = RpcSpec::new("after2").route("/s").header("resp-len", "10").body(pattern_body(5, 70));
+        outcomes.push(horizon(sim.clone(), a.clone(), b.peer_id(), after2).await);
+    }
+    let abandon_mode = mode.starts_with("caller-abandons-");
+    let h = if abandon_mode { tokio::spawn(horizon(sim.clone(), a.clone(), b.peer_id(), RpcSpec::new("main").route("/s"))) } else { tokio::spawn(horizon(sim.clone(), a.clone(), b.peer_id(), main)) };
     match mode.as_str() {
         "callee-disconnects" => {
             tokio::time::sleep(ms(30)).await;
@@ -196,7 +249,7 @@ async fn scenario_fail(sim: Arc<Sim>, unit: Value) -> Obs {
         tokio::time::sleep(ms(100)).await;
         let _ = a.connect(b.local_addr()).await;
     }
-    if mode != "callee-shuts-down" {
+    if mode != "callee-shuts-down" && !abandon_mode {
         outcomes.push(horizon(sim.clone(), a.clone(), b.peer_id(), after).await);
     }
     sim.fabric.set_fate_budget(0);
@@ -395,15 +448,101 @@ fn judge(o: &Obs, choices: &[u32]) -> Judged {
     }
 }
 
+// ------------------------------------------------------------------------------------------
+// free-running pass: a handler inside a NON-YIELDING section when its caller gives the call up.
+// On the single thread of the simulation the cancellation cannot arrive while such a section is
+// in progress, so this one behaviour is run on a real multi-thread runtime, real sockets and real
+// time. Sound by margin: the handler blocks 300 ms, the caller leaves after 100 ms, the next calls
+// come 500 ms later. Whatever the responder did with the answer nobody waits for, the next
+// answers are exactly what their handlers produced.
+// ------------------------------------------------------------------------------------------
+fn free_running(unit: &Value, out: &mut UnitResult) {
+    use anemo::types::response::StatusCode;
+    use anemo::{Network, Request, Response};
+    use bytes::Bytes;
+    use std::time::Duration;
+    let how = unit["how"].as_str().unwrap().to_string();
+    out.evaluations += 1;
+    let rt = tokio::runtime::Builder::new_multi_thread().worker_threads(3).enable_all().build().unwrap();
+    let how2 = how.clone();
+    let verdict: Result<String, (String, String)> = rt.block_on(async move {
+        let how = how2;
+        let setup = |e: String| ("setup".to_string(), e);
+        let mk = |key: u8, outbound_ms: Option<u64>| {
+            let svc = tower::service_fn(move |req: Request<Bytes>| async move {
+                let token = req.headers().get("token").cloned().unwrap_or_default();
+                if req.route() == "/busy" {
+                    // CPU-bound / blocking work that does not reach an await point
+                    tokio::task::block_in_place(|| std::thread::sleep(Duration::from_millis(300)));
+                    return Ok::<_, std::convert::Infallible>(Response::new(Bytes::from(format!("busy body {token}"))).with_status(StatusCode::InternalServerError).with_header("owner", format!("busy {token}")).with_header("only-on-busy", "yes"));
+                }
+                Ok(Response::new(Bytes::from(format!("quick body {token}"))).with_header("owner", format!("quick {token}")))
+            });
+            let mut c = anemo::Config::default();
+            c.outbound_request_timeout_ms = outbound_ms;
+            Network::bind("127.0.0.1:0").private_key([key; 32]).server_name("free").config(c).start(svc).map_err(|e| ("setup".to_string(), e.to_string()))
+        };
+        let impatient = mk(43, None)?;
+        // the same caller identity with a configured deadline of 100 ms for everything it sends
+        let impatient_cfg = mk(46, Some(100))?;
+        let bystander = mk(44, None)?;
+        let b = mk(45, None)?;
+        for n in [&impatient, &impatient_cfg, &bystander] {
+            n.connect(b.local_addr()).await.map_err(|e| setup(format!("connect: {e}")))?;
+        }
+        let bid = b.peer_id();
+        for round in 0..2 {
+            let busy = Request::new(Bytes::from_static(b"x")).with_route("/busy").with_header("token", format!("abandoned-{round}"));
+            match how.as_str() {
+                "dropped" => {
+                    if tokio::time::timeout(Duration::from_millis(100), impatient.rpc(bid, busy)).await.is_ok() {
+                        return Err(setup("the blocking handler answered within 100 ms".into()));
+                    }
+                }
+                _ => {
+                    if impatient_cfg.rpc(bid, busy).await.is_ok() {
+                        return Err(setup("the blocking handler answered within the caller's 100 ms deadline".into()));
+                    }
+                }
+            }
+            tokio::time::sleep(Duration::from_millis(500)).await;
+            for (who, net) in [("bystander", &bystander), ("impatient", &impatient)] {
+                let token = format!("{who}-{round}");
+                let r = tokio::time::timeout(Duration::from_secs(5), net.rpc(bid, Request::new(Bytes::from_static(b"y")).with_route("/quick").with_header("token", token.clone()))).await;
+                match r {
+                    Err(_) => return Err(("rpc-failed-without-faults".to_string(), format!("[free-running, call given up ({how}) while its handler was in a blocking section] the next call ({token}) did not complete within 5 s"))),
+                    Ok(Err(e)) => return Err(("rpc-failed-without-faults".to_string(), format!("[free-running, call given up ({how}) while its handler was in a blocking section] the next call ({token}) failed: {e:#}"))),
+                    Ok(Ok(resp)) => {
+                        let headers: std::collections::BTreeMap<String, String> = resp.headers().iter().map(|(k, v)| (k.clone(), v.clone())).collect();
+                        let want: std::collections::BTreeMap<String, String> = [("owner".to_string(), format!("quick {token}"))].into_iter().collect();
+                        if resp.status() != StatusCode::Success || headers != want || resp.body().as_ref() != format!("quick body {token}").as_bytes() {
+                            return Err(("wrong-response".to_string(), format!("[free-running, multi-thread runtime] a call was given up by its caller ({how}) while its handler was inside a blocking section; the NEXT call ({token}) was answered with status {:?}, headers {headers:?}, body {:?} - its handler produced Success, {want:?}, \"quick body {token}\"", resp.status(), String::from_utf8_lossy(resp.body()))));
+                        }
+                    }
+                }
+            }
+        }
+        Ok(format!("free-running {how} next-answers-intact"))
+    });
+    drop(rt);
+    match verdict {
+        Ok(c) => out.class(c),
+        Err((k, m)) if k == "setup" => out.machinery_errors.push(format!("free-running unit: {m}")),
+        Err((k, m)) => out.violation(k, m, json!({"unit": unit})),
+    }
+    out.count("free_running_trials", 1);
+}
+
 impl Check for C02 {
     fn meta(&self, _tier: Tier) -> CheckMeta {
         CheckMeta {
             property: "C02",
             level: "fault_enumeration",
-            rule: "simnet, two networks, one connection: (i) 4 gated RPCs in both directions released in every one of the 24 orders, (ii) every (request size x response size) pair of the size menu with sibling RPCs in both directions, (iii) header-map and route shapes; each explored over datagram fates {deliver, drop, duplicate, delay} within the unit's deviation bound; distinct = distinct (success/error counts, completion order)".into(),
+            rule: "simnet, two networks, one connection: (i) 4 gated RPCs in both directions released in every one of the 24 orders, (ii) every (request size x response size) pair of the size menu with sibling RPCs in both directions, (iii) header-map and route shapes, (iv) RPCs that fail at 16 points (limits, deadlines, disconnects, shutdown, six calls in a row given up by the caller at its N-th poll or after 0.1 - 2.5 ms) between two RPCs that must be unaffected; each explored over datagram fates {deliver, drop, duplicate, delay} within the unit's deviation bound; distinct = distinct (success/error counts, completion order)".into(),
             assumptions: vec![
                 "the harness service computes its answer as a pure function of the request it saw; the oracle recomputes it from the request that was sent".into(),
                 "quinn's loss recovery is executed, not modelled".into(),
+                "a supplementary FREE-RUNNING pass (2 scenarios on a multi-thread runtime in real time: a call given up by its caller - dropped, or cut by the caller's configured deadline - while its handler is inside a 300 ms blocking section; the next answers must be exactly what their handlers produced) hosts the one behaviour the single-thread simulation cannot; counted under free_running_trials, not part of the exhaustive claim".into(),
             ],
             exhaustive: true,
         }
@@ -455,10 +594,16 @@ impl Check for C02 {
                 }
             }
         }
+        for how in ["dropped", "caller-deadline"] {
+            u.insert(0, json!({"kind":"free-running","how":how}));
+        }
         u
     }
 
     fn run_unit(&self, _tier: Tier, unit: &Value, out: &mut UnitResult) {
+        if unit["kind"] == "free-running" {
+            return free_running(unit, out);
+        }
         let bound = unit["bound"].as_u64().unwrap() as usize;
         let u = unit.clone();
         explore_sim(
@@ -475,6 +620,11 @@ impl Check for C02 {
     }
 
     fn replay(&self, replay: &Value) -> String {
+        if replay["unit"]["kind"] == "free-running" {
+            let mut out = UnitResult::default();
+            free_running(&replay["unit"], &mut out);
+            return format!("free-running unit re-run (real time): {:?} {:?}", out.classes, out.violations.iter().map(|v| &v.message).collect::<Vec<_>>());
+        }
         let unit = replay["unit"].clone();
         let choices: Vec<u32> = replay["choices"]
             .as_array()
